@@ -89,7 +89,7 @@ def run(ctx):
     # (B2) decorations
     res = ctx.tlc("Decor", None, workers=4, cfg_text=DECOR_CFG, timeout=600)
     scn, cnt, first = ctx.scenario_lines(res)
-    cov["protocol-decorated-boxes"] = proto(ctx, scn, cnt, "decor", "decor", stride=6 if not thorough else 1)
+    cov["protocol-decorated-boxes"] = proto(ctx, scn, cnt, "decor", "decor", stride=12 if not thorough else 1)
     # documents of the other specifications
     kinds = ", ".join('"%s"' % k for k in c02.ALL_KINDS)
     res = ctx.tlc("Flow", None, workers=8, cfg_text=c02.GEN_CFG % (3, 4, kinds), simulate="num=%d" % (60 if not thorough else 1500), depth=5, timeout=3000)
